@@ -611,13 +611,141 @@ Proof.
   intros Hs Hv [Lw [Lf Lr]].
   unfold gen_reset_context_counters, reset_counters, has_foreach, opt_truth in *.
   unfold exn_cfg_key, exn_cfg_val, exn_cof, live_while, live_for, live_retry. cbv zeta.
-  rewrite !(write_unless_same_sset same _ _ _ Hs Hv).
+  rewrite !(write_unless_same_sset same _ _ _ Hs Hv), Hv.
   destruct (s_while sp) as [w|]; [destruct (k_while k) as [nw|]; [|exfalso; now apply Lw]|];
     (destruct (s_foreach sp) as [fe|]; [destruct (py_truth fe);
        [destruct (k_for k) as [vf|]; [|exfalso; now apply Lf]|]|]);
     (destruct (s_retry sp) as [rc|]; [destruct (k_retry k) as [nr|]; [|exfalso; now apply Lr]|]);
     cbn [ctx set_ctx]; try reflexivity;
     destruct (k_while k); destruct (k_for k); destruct (k_retry k); reflexivity.
+Qed.
+
+(** * pypyr/dsl.py :: RetryDecorator.retry_loop *)
+Lemma lift_ext {A} (r : res A) s (k k' : A -> R) :
+  (forall a, k a = k' a) -> lift r s k = lift r s k'.
+Proof. intros H. destruct r; simpl; auto. Qed.
+
+Lemma lift_bind_ok {A B} (r : res A) (f : A -> B) s (k : B -> R) :
+  lift (let* x := r in Ok (f x)) s k = lift r s (fun x => k (f x)).
+Proof. destruct r; reflexivity. Qed.
+
+Lemma fmt_none s : fmt s VNone = Ok VNone.
+Proof. reflexivity. Qed.
+
+Lemma gen_retry_loop_is_model_gen rg rp rc sp k
+      (prim_poll : (nat -> option Q) -> option Z -> option Z -> st -> iter_result * st) s :
+  (forall iv ma mx s0,
+     prim_poll iv ma mx s0 = poll LOOPFUEL (retry_iter rg rp rc sp k mx) iv ma 0 s0) ->
+  gen_retry_loop rc
+    (fun s0 bname sleep mx jrcv args => mk_interval (jit s0) bname sleep mx jrcv args)
+    prim_poll s
+  = retry_loop rg rp rc sp k s.
+Proof.
+  intros Hp.
+  unfold gen_retry_loop, retry_loop. cbv zeta.
+  set (s1 := set_ctx s _).
+  apply lift_ext; intros sleep.
+  replace (if opt_truth (r_backoff rc)
+           then fmt s1 match r_backoff rc with Some v => v | None => VNone end
+           else Ok (VStr "fixed"))
+    with (if opt_truth (r_backoff rc)
+          then match r_backoff rc with Some b => fmt s1 b | None => Ok (VStr "fixed") end
+          else Ok (VStr "fixed")) by (destruct (r_backoff rc); reflexivity).
+  apply lift_ext; intros bname.
+  assert (Tail : forall mx,
+    lift (fmt s1 (r_jrc rc)) s1 (fun jrcv =>
+    lift (fmt s1 match r_args rc with Some v => v | None => VNone end) s1 (fun args =>
+      match mk_interval (jit s1) bname sleep mx jrcv args with
+      | Some cb =>
+          match r_max rc with
+          | Some m =>
+              if py_truth m
+              then lift (as_int s1 m) s1 (fun mx0 =>
+                     match prim_poll cb (Some mx0) (Some mx0) s1 with
+                     | (IDone ok, s2) => if ok then (OOk, s2) else raise_new "AssertionError" "" s2
+                     | (IRaise o, s2) => (o, s2)
+                     end)
+              else match prim_poll cb None None s1 with
+                   | (IDone ok, s2) => if ok then (OOk, s2) else raise_new "AssertionError" "" s2
+                   | (IRaise o, s2) => (o, s2)
+                   end
+          | None => match prim_poll cb None None s1 with
+                    | (IDone ok, s2) => if ok then (OOk, s2) else raise_new "AssertionError" "" s2
+                    | (IRaise o, s2) => (o, s2)
+                    end
+          end
+      | None => (OUnsup, s1)
+      end))
+    = lift (fmt s1 (r_jrc rc)) s1 (fun jrcv =>
+      lift (match r_args rc with Some a => fmt s1 a | None => Ok VNone end) s1 (fun args =>
+        match mk_interval (jit s1) bname sleep mx jrcv args with
+        | None => (OUnsup, s1)
+        | Some interval =>
+            lift (if opt_truth (r_max rc)
+                  then match r_max rc with
+                       | Some m => let* z := as_int s1 m in Ok (Some z)
+                       | None => Ok None
+                       end
+                  else Ok None) s1 (fun max =>
+            match poll LOOPFUEL (retry_iter rg rp rc sp k max) interval max 0 s1 with
+            | (IDone true, s2) => (OOk, s2)
+            | (IDone false, s2) => raise_new "AssertionError" "" s2
+            | (IRaise o, s2) => (o, s2)
+            end)
+        end))).
+  { intros mx. apply lift_ext; intros jrcv.
+    replace (fmt s1 match r_args rc with Some v => v | None => VNone end)
+      with (match r_args rc with Some a => fmt s1 a | None => Ok VNone end)
+      by (destruct (r_args rc); reflexivity).
+    apply lift_ext; intros args.
+    destruct (mk_interval (jit s1) bname sleep mx jrcv args) as [cb|]; [|reflexivity].
+    destruct (r_max rc) as [m|]; cbn [opt_truth].
+    - destruct (py_truth m).
+      + rewrite lift_bind_ok. apply lift_ext; intros z. rewrite Hp.
+        destruct (poll _ _ _ _ _ _) as [[[|]|o] s2]; reflexivity.
+      + cbn [lift]. rewrite Hp. destruct (poll _ _ _ _ _ _) as [[[|]|o] s2]; reflexivity.
+    - cbn [lift]. rewrite Hp. destruct (poll _ _ _ _ _ _) as [[[|]|o] s2]; reflexivity. }
+  destruct (r_sleepmax rc) as [m|]; cbn [opt_truth].
+  - destruct (py_truth m).
+    + rewrite lift_bind_ok. apply lift_ext; intros q. apply Tail.
+    + cbn [lift]. apply Tail.
+  - cbn [lift]. apply Tail.
+Qed.
+
+Lemma gen_retry_loop_is_model rg rp rc sp k s :
+  gen_retry_loop rc
+    (fun s0 bname sleep mx jrcv args => mk_interval (jit s0) bname sleep mx jrcv args)
+    (fun interval max_attempts max s0 =>
+       poll LOOPFUEL (retry_iter rg rp rc sp k max) interval max_attempts 0 s0) s
+  = retry_loop rg rp rc sp k s.
+Proof. apply gen_retry_loop_is_model_gen. reflexivity. Qed.
+
+Lemma poll_ext fuel (it it' : Z -> st -> iter_result * st) iv mx i s :
+  (forall n s0, it n s0 = it' n s0) -> poll fuel it iv mx i s = poll fuel it' iv mx i s.
+Proof.
+  intros H. revert i s. induction fuel as [|f IH]; intros i s; [reflexivity|].
+  cbn [poll]. rewrite H. destruct (it' (i + 1)%Z s) as [[[|]|o] s1]; try reflexivity.
+  destruct (iv (Z.to_nat (i + 1))) as [d|]; [|reflexivity].
+  destruct mx as [m|].
+  - destruct (Z.eqb m 0); [apply IH|]. destruct (Z.ltb (i + 1) m); [apply IH|reflexivity].
+  - apply IH.
+Qed.
+
+(** the whole retry stack as read from the source — retry_loop polling exec_iteration through
+    while_until_true's sleep_looper — is the model's [retry_loop] *)
+Lemma gen_retry_stack_is_model rg rp rc sp k s :
+  gen_retry_loop rc
+    (fun s0 bname sleep mx jrcv args => mk_interval (jit s0) bname sleep mx jrcv args)
+    (fun interval max_attempts max s0 =>
+       gen_sleep_looper
+         (fun n => gen_retry_exec_iteration rc
+                     (fun c => invoke rg rp sp (mkcnt (k_while k) (k_for k) (Some c))) n max)
+         true (fun i => interval (Z.to_nat i)) None max_attempts LOOPFUEL s0) s
+  = retry_loop rg rp rc sp k s.
+Proof.
+  apply gen_retry_loop_is_model_gen. intros iv ma mx s0.
+  rewrite gen_sleep_looper_is_model. apply poll_ext. intros n s1.
+  apply gen_retry_exec_iteration_is_model.
 Qed.
 
 (** * Closed form: the engine at fuel [S f] is the generated ladder over the engine at fuel [f] —
